@@ -110,6 +110,19 @@ func prop(c Case) error {
 	if err := same(fmt.Sprintf("Unmarshal(spelling %q)", clip(c.Text)), g, spm); err != nil {
 		return err
 	}
+	// what Unmarshal returned is the caller's: another text parsed afterwards changes nothing in it
+	for _, o := range []string{"LINESTRING Z (1 2 3, 4 5 6, 7 8 9)", "MULTIPOLYGON (((0 0, 9 0, 9 9, 0 0)), EMPTY)", "POINT (7 7)"} {
+		if _, err := wkt.Unmarshal(o); err != nil {
+			return fmt.Errorf("wkt.Unmarshal(%q): %v", o, err)
+		}
+	}
+	bm2, err := model.FromGeom(back)
+	if err != nil {
+		return fmt.Errorf("the geometry returned by wkt.Unmarshal is ill formed after later parses: %v", err)
+	}
+	if err := same("the geometry returned by Unmarshal, looked at again after later parses", g, bm2); err != nil {
+		return err
+	}
 	// the same geometry object as a member in several places of a collection tree
 	// (a value, not a cycle): GEOMETRYCOLLECTION(g, GEOMETRYCOLLECTION(g), g)
 	{
